@@ -319,3 +319,99 @@ Theorem C07_stats_accumulators_are_sums :
 Proof. exact stats_accumulators_ok. Qed.
 Print Assumptions C07_stats_accumulators_are_sums.
 
+
+(* ---- (13) the invariants hold for every COMPOSED run: ALMSolver<InnerSolverT>::operator() with the inner solver in the loop.
+        AlmCompose.c_run is the outer loop calling an inner solver given as an ARBITRARY function (of the world it threads, the outer index,
+        x, the projected y, Σ, the tolerance and the err_z buffer); its trace and final statistics ARE alm_run on the script of outcomes that
+        run produced (AlmComposeProofs.c_run_spec), so (1), (2), (2'), (2''), (4), (5), (6) above hold for it — for PANOC, ZeroFPR, PANTR,
+        FISTA and for the shipped provider stacks alike.  In addition the inner solver is never asked for more than it delivered, and every
+        record of the trace is one call of the inner solver on exactly the data the record shows (calls chained through x and the world). ---- *)
+From Alpaqa Require Import AlmCompose AlmComposeProofs AlmComposeC07.
+Theorem C07_composed_run_satisfies_alm_invariants :
+  forall (W Lg : Type) (inner : W -> nat -> list R -> list R -> list R -> R -> list R -> option (inner_res (T:=R) * list R * Lg * W))
+         (P : alm_params (T:=R)) (pb : alm_problem (T:=R)) fuel f0 g0 nanv Σ0 y0 x0 w0 co,
+  c_run W Lg inner P pb fuel f0 g0 nanv Σ0 y0 x0 w0 = Some co ->
+  let tr := co_trace co in
+  let f := co_final co in
+  let S0 := initial_sigma P (pb_m pb) f0 g0 Σ0 in
+  ((* penalties: positive, of the right size, never decreasing, capped by max(initial, max_penalty) — by max_penalty if the initial ones are *)
+   ((List.length S0 = pb_m pb /\ Forall (fun x => 0 < x) S0 /\ (p_single P = true -> uniform S0)) ->
+      Forall (fun r => Forall (fun x => 0 < x) (it_Sigma r) /\ List.length (it_Sigma r) = pb_m pb) tr /\
+      chain (fun a b => Forall2 Rle (it_Sigma a) (it_Sigma b)) tr /\
+      Forall (fun r => Forall2 Rle (it_Sigma r) (map (fun s0 => Rmax s0 (p_max_pen P)) S0)) tr /\
+      (Forall (fun x => x <= p_max_pen P) S0 -> Forall (fun r => Forall (fun x => x <= p_max_pen P) (it_Sigma r)) tr)) /\
+   (* multipliers handed to the inner solver: within ±max_multiplier, sign allowed by one-sided constraints, zero on penalty-only rows *)
+   (0 <= p_M P -> List.length (pb_ub pb) = pb_m pb -> List.length y0 = pb_m pb ->
+      Forall (fun r =>
+                List.length (it_y r) = pb_m pb /\
+                forall k, (k < pb_m pb)%nat ->
+                  let v := nth k (it_y r) 0 in
+                  - p_M P <= v <= p_M P /\
+                  ((k < pb_split pb)%nat -> v = 0) /\
+                  (nth k (pb_lb pb) None = None -> 0 <= v) /\
+                  (nth k (pb_ub pb) None = None -> v <= 0)) tr) /\
+   (* inner tolerances: never below the final tolerance, non-increasing, ε⁺ = max(ρ ε, tolerance) *)
+   (0 <= p_rho P <= 1 -> p_tol P <= p_init_tol P -> 0 <= p_init_tol P ->
+      Forall (fun r => p_tol P <= it_tol r) tr /\
+      chain (fun a b => it_tol b <= it_tol a /\ it_tol b = Rmax (p_rho P * it_tol a) (p_tol P)) tr) /\
+   (* at most max_iter outer iterations = number of inner solves, numbered 0, 1, …; statistics are the sums over exactly those solves *)
+   ((f_outer f <= Alm.p_max_iter P)%nat /\ f_outer f = List.length tr /\
+    map it_i tr = seq 0 (List.length tr) /\
+    f_iters f = fold_right Nat.add 0%nat (map (fun r => ir_iters (it_res r)) tr) /\
+    f_fails f = List.length (filter (fun r => negb (is_converged (ir_status (it_res r)))) tr))) /\
+  f_exhausted f = false /\
+  called W Lg inner x0 w0 tr (co_x co) (co_w co).
+Proof. exact compose_alm_invariants. Qed.
+Print Assumptions C07_composed_run_satisfies_alm_invariants.
+
+(* the statement above is `alm_invariants` *)
+Theorem C07_alm_invariants_unfolds : forall (P : alm_params (T:=R)) (pb : alm_problem (T:=R)) f0 g0 Σ0 y0 tr f,
+  alm_invariants P pb f0 g0 Σ0 y0 tr f <->
+  (let S0 := initial_sigma P (pb_m pb) f0 g0 Σ0 in
+   ((List.length S0 = pb_m pb /\ Forall (fun x => 0 < x) S0 /\ (p_single P = true -> uniform S0)) ->
+      Forall (fun r => Forall (fun x => 0 < x) (it_Sigma r) /\ List.length (it_Sigma r) = pb_m pb) tr /\
+      chain (fun a b => Forall2 Rle (it_Sigma a) (it_Sigma b)) tr /\
+      Forall (fun r => Forall2 Rle (it_Sigma r) (map (fun s0 => Rmax s0 (p_max_pen P)) S0)) tr /\
+      (Forall (fun x => x <= p_max_pen P) S0 -> Forall (fun r => Forall (fun x => x <= p_max_pen P) (it_Sigma r)) tr)) /\
+   (0 <= p_M P -> List.length (pb_ub pb) = pb_m pb -> List.length y0 = pb_m pb ->
+      Forall (fun r =>
+                List.length (it_y r) = pb_m pb /\
+                forall k, (k < pb_m pb)%nat ->
+                  let v := nth k (it_y r) 0 in
+                  - p_M P <= v <= p_M P /\
+                  ((k < pb_split pb)%nat -> v = 0) /\
+                  (nth k (pb_lb pb) None = None -> 0 <= v) /\
+                  (nth k (pb_ub pb) None = None -> v <= 0)) tr) /\
+   (0 <= p_rho P <= 1 -> p_tol P <= p_init_tol P -> 0 <= p_init_tol P ->
+      Forall (fun r => p_tol P <= it_tol r) tr /\
+      chain (fun a b => it_tol b <= it_tol a /\ it_tol b = Rmax (p_rho P * it_tol a) (p_tol P)) tr) /\
+   ((f_outer f <= Alm.p_max_iter P)%nat /\ f_outer f = List.length tr /\
+    map it_i tr = seq 0 (List.length tr) /\
+    f_iters f = fold_right Nat.add 0%nat (map (fun r => ir_iters (it_res r)) tr) /\
+    f_fails f = List.length (filter (fun r => negb (is_converged (ir_status (it_res r)))) tr))).
+Proof. intros. reflexivity. Qed.
+Print Assumptions C07_alm_invariants_unfolds.
+
+(* ---- (14) instance: the library's DEFAULT STACK ALMSolver<PANOCSolver<LBFGSDirection>> (composed model AlmPanocDir.alm_panoc_dir with
+        Directions.lbfgs_dir; every LBFGSParams, any provider state d0, every problem / provider mix / stop / clock oracle, no hypothesis on
+        the problem functions): every completed run satisfies the ALM invariants for the user's constraint box D and penalty_alm_split,
+        and every record of its trace is one whole PANOC solve (AlmPanocDir.dinner) with the L-BFGS provider state handed on. ---- *)
+From Alpaqa Require Import AugLag Panoc Lbfgs Directions PanocDir AlmPanoc AlmPanocDir.
+Theorem C07_alm_panoc_lbfgs_run_satisfies_alm_invariants :
+  forall (Pb : problem (T:=R)) (prov : fn -> bool) (wm_supplied : list R -> list R) (Clb Cub : list (option R)) (l1 : list R)
+    (split n : nat) (pw : R -> R -> R) (LP : Lbfgs.params R) (rescale : bool) (stop_req time_up : counters -> bool)
+    (outer_oot : nat -> bool) (PP : Panoc.params (T:=R)) (AP : alm_params (T:=R)) (ls_fuel inner_fuel : nat)
+    (d0 : Lbfgs.state R) (outer_fuel : nat) (nanv : R) (Σ0 : option (list R)) (y0 x0 : list R)
+    (co : cout (counters * Lbfgs.state R) (resultD (Lbfgs.state R))),
+  alm_panoc_dir Pb prov wm_supplied Clb Cub l1 split (Lbfgs.state R) (lbfgs_dir n pw LP rescale) stop_req time_up outer_oot PP AP
+                ls_fuel inner_fuel d0 outer_fuel nanv Σ0 y0 x0 = Some co ->
+  alm_invariants AP (pb_of Pb split) (pf Pb x0) (pg Pb x0) Σ0 y0 (co_trace co) (co_final co) /\
+  f_exhausted (co_final co) = false /\
+  called (counters * Lbfgs.state R) (resultD (Lbfgs.state R))
+         (dinner Pb prov wm_supplied Clb Cub l1 (Lbfgs.state R) (lbfgs_dir n pw LP rescale) stop_req time_up outer_oot PP ls_fuel inner_fuel)
+         x0 (cnt0, d0) (co_trace co) (co_x co) (co_w co).
+Proof.
+  intros Pb prov wm Clb Cub l1 split n pw LP rescale stop_req time_up outer_oot PP AP ls_fuel inner_fuel d0 outer_fuel nanv Σ0 y0 x0 co.
+  exact (compose_alm_invariants _ _ _ AP (pb_of Pb split) outer_fuel (pf Pb x0) (pg Pb x0) nanv Σ0 y0 x0 (cnt0, d0) co).
+Qed.
+Print Assumptions C07_alm_panoc_lbfgs_run_satisfies_alm_invariants.
